@@ -144,7 +144,11 @@ def judgeC18 : P Verdict := do
           match e, w with
           | .val a, .val b =>
             match optVecCmp a b with
-            | .different => return .propfail s!"[C18] split at {k}: the composed halves give {showOptVec a} at {showVec x}, the whole tree {showOptVec b}"
+            | .different =>
+              -- with the non-dyadic hard-sigmoid slope the two distillations round differently; an input whose exact
+              -- evaluation comes within 1e-9 of a breakpoint or tie is excluded (as in C01)
+              if nearBreakpoint consts layers x then inexact := true
+              else return .propfail s!"[C18] split at {k}: the composed halves give {showOptVec a} at {showVec x}, the whole tree {showOptVec b}"
             | .close => inexact := true
             | .same => pure ()
           | _, _ => return .propfail s!"[C18] split at {k}: evaluate panics"
